@@ -48,6 +48,8 @@ class Check(BaseCheck):
                 X = rng.normal(size=(len(t), 3))
                 # dtype of the function / field handed to the implementation (the model sees the same values)
                 fdt = str(rng.choice(["float64", "float64", "int64", "int64", "uint8", "float32"]))
+                if fdt == "float32" and (c["name"] == "multi-scale" or any(str(x).startswith(("far-offset", "unit:")) for x in c["tags"])):
+                    fdt = "float64"          # single-precision function values on elements of size 1e-5: conditioning, not the property
                 xdt = str(rng.choice(["float64", "float64", "int64"]))
                 if fdt in ("int64", "uint8"):
                     f = np.round(4 * f / max(np.abs(f).max(), 1e-30)) + (4 if fdt == "uint8" else 0)
@@ -127,8 +129,8 @@ class Check(BaseCheck):
         elif np.min(np.abs(corr_fem.tet_geom(v, t)[1])) < 4 * np.finfo(float).eps:
             return None
         # conditioning: coordinates far from the origin / tiny elements lose digits in the differences the kernels form
-        el = np.linalg.norm(v[t[:, 1]] - v[t[:, 0]], axis=1)
-        kappa = max(1.0, float(np.abs(v).max() / max(el.min(), 1e-300)) * 1e-3)
+        el = np.concatenate([np.linalg.norm(v[t[:, i]] - v[t[:, j]], axis=1) for i in range(t.shape[1]) for j in range(i)])
+        kappa = max(1.0, float(np.abs(v).max() / max(el.min(), 1e-300)) * 1e-2, 1e-8 * float(el.max() / max(el.min(), 1e-300)) ** 2)
         rng = gen.rng_for(self.seed, "c06o", len(v))
         a = rng.normal(size=3); b = rng.normal()
         try:
